@@ -268,4 +268,60 @@ def parse (s : List Tree) : Option (List Tree) := top (2 * s.length + 3) [] s
 def parseFragment (cs : Bool) (s : List Tree) : Option (List Tree) :=
   (parse s).map fun ts => normKids cs .out ts []
 
+
+/-! ### reading an argument: the math-mode decision, and scratch fragments
+
+`TeX.readArgumentAndSource` normalises an expanded argument with the document's substitution list
+unless `Context.isMathMode` (plasTeX/Context.py): the innermost context frame whose object declares
+a `mathMode` decides; frames without an object (`{`), and objects that leave `mathMode = None`
+(`ArgumentContext` pushed by `createSubProcess` around every argument expansion, ordinary commands)
+are looked through. -/
+
+/-- a context frame as `isMathMode` sees it: `none` = no object, `some none` = object with
+    `mathMode = None`, `some (some b)` = object declaring `mathMode = b` -/
+abbrev MFrame := Option (Option Bool)
+
+/-- `Context.isMathMode`; stack top = list head -/
+def isMathMode : List MFrame → Bool
+  | [] => false
+  | some (some b) :: _ => b
+  | _ :: r => isMathMode r
+
+/-- the substitution flag `readArgumentAndSource` passes to `normalize` for an expanded argument -/
+def subsAtRead (stack : List MFrame) : Bool := !isMathMode stack
+
+/-! `Node.append(newChild, setParent)` / `Node.extend(other, setParent)` (plasTeX/DOM/__init__.py) as used
+for argument fragments and for the scratch fragments of `fullTitle` / `fullTocEntry`
+(`extend([ref, ' ', title], setParent=False)`). -/
+
+/-- the receiving node -/
+structure Cont where
+  ref : Ref
+  isFrag : Bool      -- nodeType == DOCUMENT_FRAGMENT_NODE
+  parent : Ref       -- its own parentNode (`unset` = None)
+
+/-- `newChild.parentNode = self.parentNode if self is a fragment else self` -/
+def Cont.target (c : Cont) : Ref := if c.isFrag then c.parent else c.ref
+
+inductive Arg where
+  | node (t : Tree)
+  | frag (parent : Ref) (kids : List Tree)
+
+/-- `self.append(newChild, setParent)`: (children added to `self`, `newChild` afterwards).
+    A fragment's children are appended one by one **with the caller's flag**, then the flag is applied
+    to `newChild` itself. -/
+def appendArg (c : Cont) (sp : Bool) : Arg → List Tree × Arg
+  | .node t => let t' := if sp then t.setParent c.target else t; ([t'], .node t')
+  | .frag p kids =>
+    let ks := kids.map fun k => if sp then k.setParent c.target else k
+    (ks, .frag (if sp then c.target else p) ks)
+
+/-- `self.extend(other, setParent)`: the children `self` gains -/
+def extend (c : Cont) (sp : Bool) (args : List Arg) : List Tree :=
+  args.flatMap fun a => (appendArg c sp a).1
+
+def Arg.kids : Arg → List Tree
+  | .node t => [t]
+  | .frag _ ks => ks
+
 end PlasVerif.Model.Digest
